@@ -202,3 +202,42 @@ func (c *Collector) Write(dir string) error {
 	}
 	return os.WriteFile(filepath.Join(dir, "obs.json"), data, 0o644)
 }
+
+// Main is the entry point of every per-property observer binary (cmd/obs/<id>).
+//   obs_<id> -seed N -tier quick|thorough|search -out DIR
+// budget is 1 for quick, 8 for thorough, 30 for search; observers scale their case counts by it.
+func Main(prop string, requires []string, run func(c *Collector, rng *Rng, budget int)) {
+	var seed uint64 = 1
+	tier, out := "quick", ""
+	args := os.Args[1:]
+	for i := 0; i+1 < len(args); i += 2 {
+		switch args[i] {
+		case "-seed":
+			seed, _ = strconv.ParseUint(args[i+1], 10, 64)
+		case "-tier":
+			tier = args[i+1]
+		case "-out":
+			out = args[i+1]
+		}
+	}
+	if out == "" {
+		fmt.Fprintln(os.Stderr, "usage: -seed N -tier quick|thorough|search -out DIR")
+		os.Exit(2)
+	}
+	budget := map[string]int{"quick": 1, "thorough": 8, "search": 30}[tier]
+	if budget == 0 {
+		budget = 1
+	}
+	if s := os.Getenv("VERIF_BUDGET"); s != "" {
+		if b, err := strconv.Atoi(s); err == nil && b > 0 {
+			budget = b
+		}
+	}
+	c := NewCollector(prop, seed, tier, requires...)
+	run(c, NewRng(seed), budget)
+	if err := c.Write(out); err != nil {
+		fmt.Fprintln(os.Stderr, err)
+		os.Exit(2)
+	}
+	fmt.Printf("observe %s: %d evaluations, %d cases, %d violations\n", prop, c.Evals, len(c.Cases), len(c.Violations))
+}
